@@ -160,7 +160,7 @@ pub fn run_prop(ctx: &Ctx) -> PropReport {
     let tier = ctx.tier;
     rep.part(|| run_random(ctx, "long_runs",
         "long histories (2000-2600 ticks quick, 6000-9000 thorough) over C01's topologies plus all-local sessions, a quarter with events never drained, a quarter with a spectator whose acknowledgements stop, a quarter with 40%-loss phases, desync detection mostly on with interval 1-2; after EVERY call the buffer sizes (verif-hooks accessor) must satisfy: events <= 100, outgoing_local_inputs == 0 (static equal delays), pending_output <= 2*window + 2*max_delay + 4 for player endpoints and <= 128 + window + max_delay + 3 for spectator endpoints, recv_inputs <= 2*window + 2, pending_checksums <= 33, local_checksum_history <= 33, send_queue <= 4 after a call; the second half's maximum must not exceed twice the first half's plus 8 (drift = leak: a leak grows linearly with the run length, fluctuations of a lossy link do not) under stationary schedules; a silent spectator must get exactly one Disconnected; non-trivial = >= 1000 frames simulated",
-        || gen(tier), ctx.tier.pick(500, 2500), eval));
+        || gen(tier), ctx.tier.pick(1500, 6000), eval));
     rep.floors.push(("long_runs".into(), 0.5));
     rep.assumptions = vec!["buffer sizes are read through the verif-hooks accessor after every advance_frame / poll_remote_clients call".into(), "bounds are derived from the code in props/c18.rs::bounds and stated there".into()];
     rep
